@@ -690,7 +690,11 @@ def prof_malformed(rng, n, tier):
             vs = rng.sample(range(2, 400), rng.randint(2, 12))
             if rng.random() < 0.6:
                 vs.append(1)      # "1" is the smallest key under both orders: only the later neighbours are out of order
-            order = rng.choice(["text", "half"])
+            order = rng.choice(["text", "half", "default"])
+            if order == "default":
+                # the tree is built under a caller-supplied DESCENDING order and then opened by a reader that configures
+                # no order: rejected exactly when the top node has two or more keys (they descend under the default order)
+                h.opts["desc"] = 1
             if order == "half":
                 # a coarser order: neighbours 2k, 2k+1 compare equal under it (reject), other sets stay ascending (accept)
                 vs = sorted(set(2 * v for v in vs))
